@@ -136,6 +136,11 @@ fn order_pair(ctx: &mut Ctx, a: &Num, b: &Num) {
             if ba != ab.reverse() {
                 ctx.violation("cmp/antisymmetry", || format!("cmp(a,b)={:?} cmp(b,a)={:?} ; {}", ab, ba, info()));
             }
+            // the reference-typed impls (Number vs &Number) must agree as well
+            let refs_ok = guard(|| ((la == &lb) == eq) && ((&la == lb) == eq) && (la.partial_cmp(&&lb) == pc) && ((&la).partial_cmp(&lb) == pc)).unwrap_or(false);
+            if !refs_ok {
+                ctx.violation("cmp/ref-impls-inconsistent", || info());
+            }
             if eq != (ab == Ordering::Equal) || pc != Some(ab) {
                 ctx.violation("cmp/eq-inconsistent", || format!("eq={} cmp={:?} partial={:?} ; {}", eq, ab, pc, info()));
             }
